@@ -388,6 +388,34 @@ func run(r *Rng, tier string, n int) {
 			}
 		}
 	}
+	// unknown types (RFC 3597): one Go type holds every unknown type code, so only the header comparison
+	// tells TYPE65280 from TYPE65281: same owner, class and RDATA, different type code = different data
+	for _, pair := range [][2]uint16{{65280, 65281}, {65280, 65280}, {1234, 1235}, {0xFFFE, 0xFF00}} {
+		mk := func(t uint16) dns.RR {
+			w := []byte{1, 'u', 0, byte(t >> 8), byte(t), 0, 1, 0, 0, 0, 9, 0, 2, 0xab, 0xcd}
+			rr, _, err := dns.UnpackRR(w, 0)
+			if err != nil {
+				return nil
+			}
+			return rr
+		}
+		a, b := mk(pair[0]), mk(pair[1])
+		if a == nil || b == nil {
+			continue
+		}
+		st["unknown_type_pairs_checked"]++
+		want := "ok:" + Btoa(pair[0] == pair[1])
+		for _, p := range [][2]dns.RR{{a, b}, {b, a}} {
+			got := isDup(p[0], p[1])
+			emit(p[0], p[1], got)
+			if got != want {
+				Viol("C20/RFC3597/type-code-ignored", "unknown-type records TYPE"+Itoa(int(pair[0]))+" / TYPE"+Itoa(int(pair[1]))+" with equal RDATA: IsDuplicate = "+got, map[string]string{"a": p[0].String(), "b": p[1].String()})
+			}
+		}
+		if out := dns.Dedup([]dns.RR{dns.Copy(a), dns.Copy(b)}, nil); (len(out) == 1) != (pair[0] == pair[1]) {
+			Viol("C20/Dedup/type-code-ignored", "Dedup of TYPE"+Itoa(int(pair[0]))+" / TYPE"+Itoa(int(pair[1]))+" keeps "+Itoa(len(out)), nil)
+		}
+	}
 	// slices of different length
 	{
 		a := &dns.TXT{Hdr: dns.RR_Header{Name: "t.", Rrtype: dns.TypeTXT, Class: 1}, Txt: []string{"a", "b"}}
